@@ -15,6 +15,10 @@ THEOREMS = [
     'OpenHTF.Render.c10_json_safe_no_nonfinite_leaves',
     'OpenHTF.Render.c10_convert_idempotent',
     'OpenHTF.Render.c10_cache_coherent',
+    'OpenHTF.PendingSet.c10_live_view_never_loses_an_update',
+    'OpenHTF.PendingSet.c10_quiescent_live_view_is_current',
+    'OpenHTF.PendingSet.c10_render_pass_refreshes',
+    'OpenHTF.PendingSet.clear_after_iterate_loses_an_update',
 ]
 PENDING = ['record-level statements (every record list represented, conversion does not write caches, JSON text strict and '
            'round-trips, attachments base64) are differential checks on real records (kind R), not theorems']
@@ -496,8 +500,12 @@ MANIFEST = {
             'depth, and the rendering is a fixed point of the conversion; over EVERY history of assignments, overrides, '
             'per-coordinate overrides, validations and reads, reading the cached base-type view of a measurement equals '
             'the from-scratch rendering of the in-memory object (coherence invariant of _cached_value / '
-            '_cached_basetype_values / _cached). Tie: real Measurement objects inside a real PhaseState read through '
-            'PhaseState.as_base_types(), real convert_to_base_types on the family.',
+            '_cached_basetype_values / _cached); under EVERY line-level interleaving of the phase thread\'s assignments with a '
+            'watcher thread rendering the live view (pending-set swap protocol, inductive invariant) no update is lost '
+            'and a quiet live view is current - with the counterexample theorem that iterate-then-clear loses one. Tie: '
+            'real Measurement objects inside a real PhaseState read through PhaseState.as_base_types(), real '
+            'convert_to_base_types on the family, watcher and phase threads under the cooperative scheduler with the '
+            'source lines of the rendering functions as scheduling points.',
     'note': 'Trusted: Lean kernel + standard axioms; the Python-value/token canonicaliser; Lean driver. PARTIAL: the '
             'record-level statements (every record list of the TestRecord represented, conversion does not write the '
             'caches, JSON text strict and decoding to the same structure, attachments byte-for-byte through base64) are '
